@@ -530,6 +530,55 @@ impl ractor::thread_local::ThreadLocalActor for ScriptedLocal {
     }
 }
 
+/// The scripted actor once more as a *Send* `Actor + Default`: spawned on a thread-local spawner it
+/// runs through the blanket adapter `impl<T: Actor + Default> ThreadLocalActor for T`
+/// (`ractor/src/thread_local.rs`), whose every hook must forward to the same-named hook. The callback
+/// identity is logged from inside these bodies, so a forwarding mix-up shows as a wrong callback event.
+#[derive(Default)]
+pub struct ScriptedSend;
+
+#[cfg_attr(feature = "async-trait", ractor::async_trait)]
+impl Actor for ScriptedSend {
+    type Msg = Msg;
+    type State = LocalState;
+    type Arguments = (usize, Arc<Shared>);
+
+    async fn pre_start(
+        &self,
+        myself: ActorRef<Msg>,
+        (idx, sh): (usize, Arc<Shared>),
+    ) -> Result<LocalState, ActorProcessingErr> {
+        sh.pids.lock().unwrap().insert(myself.get_id().pid(), idx);
+        sh.slots.lock().unwrap()[idx].me = Some(myself);
+        run_cb(&sh, idx, "pre_start", String::new()).await?;
+        Ok(LocalState { idx, sh })
+    }
+
+    async fn post_start(&self, _myself: ActorRef<Msg>, st: &mut LocalState) -> Result<(), ActorProcessingErr> {
+        run_cb(&st.sh, st.idx, "post_start", String::new()).await
+    }
+
+    async fn post_stop(&self, _myself: ActorRef<Msg>, st: &mut LocalState) -> Result<(), ActorProcessingErr> {
+        run_cb(&st.sh, st.idx, "post_stop", String::new()).await
+    }
+
+    async fn handle(&self, _myself: ActorRef<Msg>, message: Msg, st: &mut LocalState) -> Result<(), ActorProcessingErr> {
+        let arg = msg_arg(&st.sh, st.idx, message);
+        run_cb(&st.sh, st.idx, "handle", arg).await
+    }
+
+    async fn handle_supervisor_evt(
+        &self,
+        _myself: ActorRef<Msg>,
+        message: SupervisionEvent,
+        st: &mut LocalState,
+    ) -> Result<(), ActorProcessingErr> {
+        let arg = sup_arg(&st.sh, &message);
+        drop(message);
+        run_cb(&st.sh, st.idx, "sup", arg).await
+    }
+}
+
 // -----------------------------------------------------------------------------------------
 // world: the actors of one case and the primitive operations
 // -----------------------------------------------------------------------------------------
@@ -575,6 +624,8 @@ pub struct World {
     pub calls: HashMap<u32, CallFut>,
     /// `Some`: every actor is spawned as a thread-local actor through this spawner
     pub local: Option<ractor::thread_local::ThreadLocalActorSpawner>,
+    /// with `local`: the actors are Send `Actor + Default` types run through the blanket adapter
+    pub adapter: bool,
 }
 
 pub fn status_str(s: ActorStatus) -> &'static str {
@@ -630,12 +681,20 @@ impl World {
             waits: HashMap::new(),
             calls: HashMap::new(),
             local: None,
+            adapter: false,
         }
     }
 
     /// Spawn every actor of the following cases as a thread-local actor.
     pub fn use_thread_local(&mut self) {
         self.local = Some(ractor::thread_local::ThreadLocalActorSpawner::new());
+    }
+
+    /// Like `use_thread_local`, but every actor is the Send actor `ScriptedSend` spawned through
+    /// `<ScriptedSend as ThreadLocalActor>::spawn*`, i.e. through the blanket adapter.
+    pub fn use_thread_local_adapter(&mut self) {
+        self.use_thread_local();
+        self.adapter = true;
     }
 
     fn spin_until(&self, what: &str, mut done: impl FnMut() -> bool) {
@@ -665,9 +724,16 @@ impl World {
         let real = name.map(|n| self.sh.real(n));
         let args = (a, self.sh.clone());
         let before = self.eng.ntasks();
-        let mut hand: Hand<SpawnRes> = match sup.and_then(|p| self.me(p)) {
-            Some(p) => Hand::new(ScriptedLocal::spawn_linked(real, args, p.get_cell(), spawner)),
-            None => Hand::new(ScriptedLocal::spawn(real, args, spawner)),
+        let mut hand: Hand<SpawnRes> = match (self.adapter, sup.and_then(|p| self.me(p))) {
+            (false, Some(p)) => Hand::new(ScriptedLocal::spawn_linked(real, args, p.get_cell(), spawner)),
+            (false, None) => Hand::new(ScriptedLocal::spawn(real, args, spawner)),
+            (true, Some(p)) => Hand::new(<ScriptedSend as ThreadLocalActor>::spawn_linked(
+                real,
+                args,
+                p.get_cell(),
+                spawner,
+            )),
+            (true, None) => Hand::new(<ScriptedSend as ThreadLocalActor>::spawn(real, args, spawner)),
         };
         // first poll: `new()`, `Starting`, link to the supervisor, ship the builder
         match hand.poll_once() {
